@@ -57,7 +57,12 @@ func execC15(c Case) string {
 		zeroOK := ""
 		switch t[0] {
 		case "M":
-			add(hdkeychain.NewMaster(unhx(t[1]), netIdx(t[2])))
+			m, err, written := newMasterCallerBuffer(unhx(t[1]), netIdx(t[2]))
+			if written {
+				res = "SEED-BUFFER-WRITTEN"
+			} else {
+				add(m, err)
+			}
 		case "P":
 			if k := h(1); k != nil {
 				add(hdkeychain.NewKeyFromString(k.String()))
